@@ -13,7 +13,7 @@
  C13.wrappers    Semaphore post(n) posts n times / wait waits once; Condition::wait uses the mutex given to use(); signal broadcasts
  Schedule-level visibility and spin-wait fairness are not decided."""
 import os
-import ir, q, cfg as cfgm, bytesets
+import ir, q, bounded, cfg as cfgm, bytesets
 from ir import strip, strip_lv, const_val, T, pe, walk_expr, fn_exprs, AnalysisBroken
 from core import fwhere
 
@@ -345,15 +345,19 @@ def check_partition(ctx, prog):
     except bytesets.Undecidable as ex:
         ctx.undecided('C13.partition', f['pq'], role, fwhere(f, nvar['l']), 'worker count expression not evaluable: %s' % ex)
     # spawn loop and context initialiser
-    loops = [s_ for s_ in ir.walk_stmts(f['body']) if s_.get('k') == 'for' and any(e.get('k') == 'call' and e.get('pq') == 'asl::Thread::run' for e in ir.stmt_exprs(s_['body']))]
+    loops = [s_ for s_ in ir.walk_stmts(f['body']) if s_.get('k') in ('for', 'while') and any(e.get('k') == 'call' and e.get('pq') == 'asl::Thread::run' for e in ir.stmt_exprs(s_['body']))]
     if len(loops) != 1:
         ctx.undecided('C13.partition', f['pq'], 'parallel_for:spawn loop', fwhere(f), 'spawn loop not found')
         return
     lp = loops[0]
-    c = strip(lp['c'])
-    iv = lp['init']['vars'][0] if lp.get('init') and lp['init'].get('k') == 'decl' else None
-    okl = iv is not None and const_val(iv.get('init')) == 0 and c.get('op') == '<' and strip(c['x']).get('id') == iv['id'] and strip(c['y']).get('id') == nvar['id'] and strip(lp.get('inc') or {}).get('op') in ('post++', 'pre++')
-    ctx.check(okl, 'C13.partition', f['pq'], 'parallel_for:spawn loop runs worker indices 0..n-1', fwhere(f, lp['l']), 'for (i = 0; i < n; i++)', 'spawn loop is not `for (i = 0; i < n; i++)` over the worker count')
+    cl = q.counted_loop(f, lp)
+    if cl is None:
+        ctx.undecided('C13.partition', f['pq'], 'parallel_for:spawn loop runs worker indices 0..n-1', fwhere(f, lp['l']), 'spawn loop is not a recognised counting loop')
+        return
+    iv = {'id': cl['var']}
+    okl = const_val(cl['init']) == 0 and cl['op'] == '<' and strip(cl['bound']).get('id') == nvar['id'] and cl['step'] == 1
+    ctx.check(okl, 'C13.partition', f['pq'], 'parallel_for:spawn loop runs worker indices 0..n-1', fwhere(f, lp['l']), 'for (i = 0; i < n; i++)', 'spawn loop does not run the worker index over 0 .. n-1 (n = worker count): init `%s`, condition `%s %s %s`, step %s'
+              % (pe(cl['init']), cl['name'], cl['op'], pe(cl['bound']), cl['step'] if isinstance(cl['step'], int) else pe(cl['step'])))
     inits = [v for s_ in ir.walk_stmts(lp['body']) if s_.get('k') == 'decl' for v in s_['vars'] if strip(v.get('init') or {}).get('k') == 'initlist']
     if len(inits) == 1 and iv is not None:
         items = strip(inits[0]['init'])['items']
@@ -375,16 +379,17 @@ def check_partition(ctx, prog):
         raise AnalysisBroken('beginfN not instantiated')
     g = ws[0]
     ctx.analysed(g)
-    loops = [s_ for s_ in ir.walk_stmts(g['body']) if s_.get('k') == 'for']
+    loops = [s_ for s_ in ir.walk_stmts(g['body']) if s_.get('k') in ('for', 'while') and any(e.get('k') == 'call' and e.get('op') == '()' for e in ir.stmt_exprs(s_['body']))]
     okw = False
     if len(loops) == 1:
-        lp = loops[0]
-        iv = lp['init']['vars'][0] if lp.get('init') and lp['init'].get('k') == 'decl' else None
-        c = strip(lp['c'])
-        inc = strip(lp.get('inc') or {})
-        calls = [e for e in ir.stmt_exprs(lp['body']) if e.get('k') == 'call' and e.get('op') == '()' and strip(e['obj']).get('f') == 'f']
-        okw = (iv is not None and strip(iv.get('init') or {}).get('f') == 'i0' and c.get('op') == '<' and strip(c['x']).get('id') == iv['id'] and strip(c['y']).get('f') == 'i1' and
-               inc.get('op') == '+=' and strip_lv(inc['x']).get('id') == iv['id'] and strip(inc['y']).get('f') == 's' and len(calls) == 1 and strip(calls[0]['a'][0]).get('id') == iv['id'])
+        cl = q.counted_loop(g, loops[0])
+        if cl is None:
+            ctx.undecided('C13.partition', g['pq'], 'beginfN:iterates start + k*stride < end calling f(i) once', fwhere(g, loops[0]['l']), 'worker loop is not a recognised counting loop')
+            return
+        def fld(x):
+            return strip(q.expand(g, x)).get('f') if isinstance(x, dict) else None
+        calls = [e for st in cl['body'] for e in ir.stmt_exprs(st) if e.get('k') == 'call' and e.get('op') == '()' and strip(e['obj']).get('f') == 'f']
+        okw = (fld(cl['init']) == 'i0' and cl['op'] == '<' and fld(cl['bound']) == 'i1' and fld(cl['step']) == 's' and len(calls) == 1 and strip(calls[0]['a'][0]).get('id') == cl['var'])
     ctx.check(okw, 'C13.partition', g['pq'], 'beginfN:iterates start + k*stride < end calling f(i) once', fwhere(g), 'for (i = s.i0; i < s.i1; i += s.s) s.f(i)',
               'beginfN does not iterate `for (i = start; i < end; i += stride) f(i)` over the context it was given')
 
@@ -403,32 +408,60 @@ def check_wrappers(ctx, prog):
     c = lib_calls(f)
     ctx.check(len(c) == 1 and c[0]['fn'] == 'sem_post', 'C13.wrappers', f['pq'], 'Semaphore::post():one sem_post', fwhere(f), 'one sem_post', 'Semaphore::post() does not call sem_post exactly once')
     f = one('asl::Semaphore::post', '(int)')
-    loops = [s_ for s_ in ir.walk_stmts(f['body']) if s_.get('k') == 'for']
+    loops = [s_ for s_ in ir.walk_stmts(f['body']) if s_.get('k') in ('for', 'while')]
     okk = False
     if len(loops) == 1:
-        lp = loops[0]
-        iv = lp['init']['vars'][0] if lp.get('init') and lp['init'].get('k') == 'decl' else None
-        c = strip(lp['c'])
-        posts = [e for e in ir.stmt_exprs(lp['body']) if e.get('k') == 'call' and e.get('fn') == 'sem_post']
-        okk = iv is not None and const_val(iv.get('init')) == 0 and c.get('op') == '<' and strip(c['y']).get('id') == f['params'][0]['id'] and len(posts) == 1 and strip(lp.get('inc') or {}).get('op') in ('post++', 'pre++')
-    ctx.check(okk, 'C13.wrappers', f['pq'], 'Semaphore::post(n):n posts', fwhere(f), 'loop of n sem_post', 'Semaphore::post(n) does not post exactly n times (a lost post leaves a waiter blocked)')
+        cl = q.counted_loop(f, loops[0])
+        if cl is None:
+            ctx.undecided('C13.wrappers', f['pq'], 'Semaphore::post(n):n posts', fwhere(f), 'post loop is not a recognised counting loop')
+        else:
+            posts = [e for st in cl['body'] for e in ir.stmt_exprs(st) if e.get('k') == 'call' and e.get('fn') == 'sem_post']
+            other_posts = [e for e in fn_exprs(f) if e.get('k') == 'call' and e.get('fn') == 'sem_post' and e not in posts]
+            pid = f['params'][0]['id']
+            okk = len(posts) == 1 and not other_posts and isinstance(cl['step'], int)
+            if okk:
+                try:
+                    for nv in range(-1, 7):
+                        ev = bytesets.Evaluator(prog, f, {pid: nv})
+                        tc = q.trip_count(ev.ev(cl['init']), cl['op'], ev.ev(cl['bound']), cl['step'])
+                        ctx.evaluations += 1
+                        if tc != max(0, nv):
+                            okk = False
+                except bytesets.Undecidable:
+                    okk = False
+    if len(loops) != 1 or cl is not None:
+        ctx.check(okk, 'C13.wrappers', f['pq'], 'Semaphore::post(n):n posts', fwhere(f), 'loop of n sem_post', 'Semaphore::post(n) does not post exactly n times (a lost post leaves a waiter blocked)')
     f = one('asl::Semaphore::wait', '()')
     c = lib_calls(f)
     ctx.check(len(c) == 1 and c[0]['fn'] == 'sem_wait', 'C13.wrappers', f['pq'], 'Semaphore::wait():one sem_wait', fwhere(f), 'one sem_wait', 'Semaphore::wait() does not call sem_wait exactly once')
+    def reports_success_of(f, libfn, role, ok_text, bad_text):
+        """the boolean the wrapper returns is exactly (return value of the one library call == 0): decided by evaluating the
+        wrapper's return paths with the call bound to 0 and to -1"""
+        c = lib_calls(f)
+        if len(c) != 1 or c[0]['fn'] != libfn:
+            ctx.violation('C13.wrappers', f['pq'], role, fwhere(f), bad_text + ' (library calls: %s)' % [x['fn'] for x in c])
+            return
+        body = f['body']['s'] if f['body'].get('k') == 'block' else [f['body']]
+        res = {}
+        for rv in (0, -1):
+            ev = bounded.Bound(prog, f, {}, {pe(c[0]): rv})
+            r = bounded.result3(ev, body)
+            res[rv] = None if r is bounded.FALL else r
+            ctx.evaluations += 1
+        if res[0] is True and res[-1] is False:
+            ctx.ok('C13.wrappers', f['pq'], role, fwhere(f), ok_text)
+            return
+        uses_errno = any(e.get('k') == 'call' and e.get('fn') == '__errno_location' for e in fn_exprs(f))
+        if (res[0] is None or res[-1] is None) and not uses_errno and not (res[0] is False or res[-1] is True):
+            ctx.undecided('C13.wrappers', f['pq'], role, fwhere(f), 'result of the wrapper not evaluable from the return value of %s' % libfn)
+            return
+        ctx.violation('C13.wrappers', f['pq'], role, fwhere(f), bad_text + ' (wrapper result when %s returns 0: %s, when it fails: %s%s)' % (
+            libfn, res[0], res[-1], '; consults errno' if uses_errno else ''))
     f = one('asl::Semaphore::wait', '(double)')
-    c = lib_calls(f)
-    rets = [s_ for s_ in ir.walk_stmts(f['body']) if s_.get('k') == 'return' and s_.get('e') is not None]
-    okk = len(c) == 1 and c[0]['fn'] == 'sem_timedwait' and len(rets) == 1
-    if okk:
-        r = strip(rets[0]['e'])
-        okk = r.get('k') == 'bin' and r.get('op') == '==' and strip(r['x']) is c[0] and const_val(r['y']) == 0
-    ctx.check(okk, 'C13.wrappers', f['pq'], 'Semaphore::wait(timeout):success is the return value of sem_timedwait', fwhere(f), 'return sem_timedwait(..) == 0',
-              'Semaphore::wait(timeout) does not report success from the return value of sem_timedwait (errno is only meaningful after a failure): a post that was taken can be reported as a timeout, i.e. lost')
+    reports_success_of(f, 'sem_timedwait', 'Semaphore::wait(timeout):success is the return value of sem_timedwait', 'returns true iff sem_timedwait(..) returned 0',
+                       'Semaphore::wait(timeout) does not report success from the return value of sem_timedwait (errno is only meaningful after a failure): a post that was taken can be reported as a timeout, i.e. lost')
     f = one('asl::Semaphore::trywait')
-    c = lib_calls(f)
-    rets = [s_ for s_ in ir.walk_stmts(f['body']) if s_.get('k') == 'return' and s_.get('e') is not None]
-    okk = len(c) == 1 and c[0]['fn'] == 'sem_trywait' and len(rets) == 1 and strip(rets[0]['e']).get('op') == '==' and strip(strip(rets[0]['e'])['x']) is c[0] and const_val(strip(rets[0]['e'])['y']) == 0
-    ctx.check(okk, 'C13.wrappers', f['pq'], 'Semaphore::trywait():success is the return value of sem_trywait', fwhere(f), 'return sem_trywait(..) == 0', 'Semaphore::trywait() does not report success from the return value of sem_trywait')
+    reports_success_of(f, 'sem_trywait', 'Semaphore::trywait():success is the return value of sem_trywait', 'returns true iff sem_trywait(..) returned 0', 'Semaphore::trywait() does not report success from the return value of sem_trywait')
     f = one('asl::Condition::wait', '()')
     c = lib_calls(f)
     okk = len(c) == 1 and c[0]['fn'] == 'pthread_cond_wait' and any(w.get('k') == 'mem' and w.get('f') == '_mutex' for w in walk_expr(c[0]['a'][1])) and any(w.get('k') == 'mem' and w.get('f') == '_cond' for w in walk_expr(c[0]['a'][0]))
